@@ -546,7 +546,7 @@ func checkC14(c *Ctx, r *Report) error {
 	}
 	// fixed boundary files
 	items = append(items, item{"raw/empty", nil}, item{"raw/exactly-84-bytes", make([]byte, 84)})
-	n := TierN(c.Tier, 1500, 30000, 6000)
+	n := TierN(c.Tier, 3000, 30000, 6000)
 	for k := 0; k < n; k++ {
 		var b []byte
 		var s string
